@@ -160,6 +160,5 @@ var X500AttrTypesByOid = map[string]string{
 	oid.X500AttrEpcFormat.String():                          "epcFormat",
 	oid.X500AttrEpcInUrn.String():                           "epcInUrn",
 	oid.X500AttrLdapUrl1.String():                           "ldapUrl",
-	oid.X500AttrLdapUrl2.String():                           "ldapUrl",
 	oid.X500AttrOrganizationIdentifier.String():             "organizationIdentifier",
 }
